@@ -381,6 +381,76 @@ def run(ctx, res):
                                  ' --overwrite' if ow else '', os.path.basename(good), os.path.basename(bad), outcome, os.path.basename(bad_dest),
                                  'removed' if snapshot(bad_dest) is None else 'changed'),
                              {'overwrite': ow, 'first_cart': ext1, 'dest_existed': existed})
+    # the command-line loop as a whole (Model `processGameFiles`): random command lines of 1-4 carts — readable or not, formattable or not,
+    # .p8 / .p8.png, with and without --overwrite, with and without earlier outputs — and the resulting set of files compared with the model
+    cl_lines, cl_cases = [], []
+    for trial in range(ctx.budget(12, 150)):
+        d = os.path.join(ctx.tmp, 'cl%d' % trial)
+        os.makedirs(d, exist_ok=True)
+        ow = rng.random() < 0.5
+        carts, store0, names = [], {}, []
+        for k in range(rng.randrange(1, 5)):
+            png = rng.random() < 0.4
+            kind = rng.choice(['good', 'good', 'bad-code', 'missing', 'garbage'])
+            if png and kind == 'bad-code':
+                kind = 'good'        # (a .p8.png is loaded through the parser already: unparseable code makes it unloadable, see 'garbage')
+            nm = 'c%d%s' % (k, '.p8.png' if png else '.p8')
+            pth = os.path.join(d, nm)
+            if kind in ('good', 'bad-code'):
+                gfile.to_file(U.make_game(rng=rng, code=b'x=%d\n' % k, version=8), pth)
+                if kind == 'bad-code':
+                    good_bytes = open(pth, 'rb').read()
+                    open(pth, 'wb').write(good_bytes.replace(b'x=%d\n' % k, b'a=b=c\n'))
+            elif kind == 'garbage':
+                open(pth, 'wb').write(b'this is not a cart\n')
+            loads = kind in ('good', 'bad-code')
+            if os.path.exists(pth):
+                store0[nm] = open(pth, 'rb').read()
+            outn = nm if (ow and not png) else nm[:-(7 if png else 3)] + ('_fmt.p8.png' if png else '_fmt.p8')
+            if outn != nm and rng.random() < 0.4:
+                if png:
+                    gfile.to_file(U.make_game(rng=rng, code=b'old=1\n', version=8), os.path.join(d, outn))      # (a valid picture: it is the label source)
+                else:
+                    open(os.path.join(d, outn), 'wb').write(b'EARLIER OUTPUT %d' % k)
+                store0[outn] = open(os.path.join(d, outn), 'rb').read()
+            # (a missing file is not one of the load errors the loop reports and skips: the exception ends the command, like a failed write)
+            carts.append('%s,%d,%d,%s' % (nm, 1 if png else 0, 1 if (loads or kind == 'missing') else 0, 'x' if kind in ('bad-code', 'missing') else 'r:ff'))
+            names.append(pth)
+        tags = {n: '%02x' % (i + 1) for i, n in enumerate(sorted(store0))}
+        cl_lines.append('pgf %d %s %s' % (1 if ow else 0, ';'.join(carts), ';'.join('%s=%s' % (n, tags[n]) for n in sorted(store0)) or '.'))
+        with U.quiet(), contextlib.redirect_stdout(io.StringIO()), contextlib.redirect_stderr(io.StringIO()):
+            try:
+                outcome = 'rc%s' % tool.main(['-q', 'luafmt'] + (['--overwrite'] if ow else []) + names)
+            except BaseException as e:
+                outcome = 'raised'
+        after = {n: open(os.path.join(d, n), 'rb').read() for n in sorted(os.listdir(d))}
+        cl_cases.append((trial, ow, carts, store0, tags, outcome, after))
+        res.evaluations += 1
+        res.count('command-lines')
+        res.nontrivial.add(('cl', trial, ow, tuple(carts)))
+    if ctx.model.available and cl_lines:
+        for (trial, ow, carts, store0, tags, outcome, after), m in zip(cl_cases, ctx.model.run(cl_lines)):
+            key = 'C11:command-line:%d' % trial
+            inp = {'overwrite': ow, 'carts': carts, 'files_before': sorted(store0)}
+            parts = m.split(' ')
+            if len(parts) < 3 or parts[0] != 'ok':
+                res.diff({'op': 'pgf', 'trial': trial}, outcome, m[:100])
+                continue
+            want = dict(e.split('=') for e in parts[2].split(';')) if parts[2] != '.' else {}
+            if parts[1] != outcome:
+                res.diff({'op': 'pgf', 'trial': trial, 'carts': carts, 'overwrite': ow}, outcome, parts[1])
+            for n in sorted(set(want) | set(after) | set(store0)):
+                w_ = want.get(n)
+                if n in store0 and (n not in after):
+                    res.fail(key, 'the command removed %s' % n, inp)
+                elif w_ is None and n in after:
+                    res.fail(key, 'the command created %s, which the model does not' % n, inp)
+                elif w_ is not None and n not in after:
+                    res.fail(key, 'the command did not leave %s in place' % n, inp)
+                elif w_ is not None and n in store0 and w_ == tags[n] and after[n] != store0[n]:
+                    res.fail(key, '%s was changed although its cart failed or was not processed (%s)' % (n, outcome), inp)
+                elif w_ == 'ff' and n in store0 and after[n] == store0[n] and not n.endswith(('_fmt.p8', '_fmt.p8.png')) is False:
+                    res.fail(key, '%s should have been rewritten (%s) but still holds its earlier content' % (n, outcome), inp)
     # model trace shape (Lean `toFile`) is compared structurally above: [exists, (read label)], temp writes, seek, open, write
 
 
